@@ -376,6 +376,12 @@ func exec(op string) (res string) {
 	switch w[0] {
 	case "dialplan", "dialsec":
 		return dialOp(w)
+	case "tlshist":
+		return tlsHistOp(w)
+	case "tokalias":
+		return tokAliasOp(w)
+	case "tokpar":
+		return tokParOp(w)
 	case "tls":
 		if len(w) != 7 {
 			return "bad-op"
@@ -1216,6 +1222,26 @@ func main() {
 			sc = genAuthScript(r, cls)
 		}
 		add(strings.TrimSpace("noleak "+mode+" "+genLeakConn(r, cls)+" "+strings.Join(sc, " ")), fixed("oracle/noleak/"+mode))
+	}
+	// HISTORIES in one process: sessions created one after the other from the same SslOptions / caller tls.Config /
+	// paths with the values changed in between; Challenge calls whose tokens are all still held (back to back, and
+	// real handshakes alive at once)
+	for i := 0; i < 150*mult; i++ {
+		add("tlshist "+genHist(r), func(a string) string {
+			if strings.Contains(a, "error") {
+				return "oracle/tlshist/with-errors"
+			}
+			if strings.Contains(a, "noverify") && strings.Contains(a, " verify") || strings.HasPrefix(a, "verify") && strings.Contains(a, "noverify") {
+				return "oracle/tlshist/verdict-changes"
+			}
+			return "oracle/tlshist/same-verdict"
+		})
+	}
+	for i := 0; i < 200*mult; i++ {
+		add("tokalias "+genChalCalls(r, 2+r.Intn(4)), fixed("oracle/tokalias"))
+	}
+	for i := 0; i < 40*mult; i++ {
+		add("tokpar "+genChalCalls(r, 2+r.Intn(3)), fixed("oracle/tokpar"))
 	}
 	// EVERY DIALER: with SslOpts, TLS on every connection the driver dials itself (caller's Dialer or its own), handed
 	// on exactly when the documented table / expected name / CAs say so; several dials through the one shared config
